@@ -559,7 +559,10 @@ where
     fn call(&mut self, req: Req) -> Self::Future {
         let config = Arc::clone(&self.config);
         let circuit = Arc::clone(&self.circuit);
-        let mut inner = self.inner.clone();
+        // Call the instance that was driven to readiness by poll_ready and leave a
+        // fresh clone behind (a clone has not been polled ready)
+        let clone = self.inner.clone();
+        let mut inner = std::mem::replace(&mut self.inner, clone);
 
         Box::pin(async move {
             #[cfg(feature = "tracing")]
@@ -730,7 +733,10 @@ where
     fn call(&mut self, req: Req) -> Self::Future {
         let config = Arc::clone(&self.config);
         let circuit = Arc::clone(&self.circuit);
-        let mut inner = self.inner.clone();
+        // Call the instance that was driven to readiness by poll_ready and leave a
+        // fresh clone behind (a clone has not been polled ready)
+        let clone = self.inner.clone();
+        let mut inner = std::mem::replace(&mut self.inner, clone);
         let fallback = Arc::clone(&self.fallback);
 
         Box::pin(async move {
